@@ -67,7 +67,13 @@ def hours_table(rng, cfg, G):
     gm = max(1, G // 60)
     tbl = []
     days = sorted(rng.sample(range(7), rng.randint(3, 7)))
+    shared = {}                                   # several days often share one interval list (day ranges / lists)
+    npat = rng.choice([1, 2, 2, 7])
     for d in days:
+        key = rng.randrange(npat)
+        if key in shared:
+            tbl.append((d, list(shared[key])))
+            continue
         ivs = []
         if rng.random() < cfg["xmid"]:
             a = rng.choice([18, 20, 22, 23])
@@ -87,6 +93,7 @@ def hours_table(rng, cfg, G):
             ivs[0] = ((a, gm % 60 if gm < 60 else 0), (b, 0))
         if (ivs[0][1][0], ivs[0][1][1]) == (24, 0) and ivs[0][0][0] >= 24:
             continue
+        shared[key] = list(ivs)
         tbl.append((d, ivs))
     return tbl
 
@@ -100,6 +107,8 @@ def gen(rng, cfg):
           "resources": [], "tasks": []}
     if rng.random() < cfg["alap"]:
         ap["alap"] = True
+    if cfg["hours"] or cfg["shift"]:
+        ap["dayranges"] = rng.random() < 0.5        # written as day ranges / lists instead of one directive per day
     day0 = start - start % 86400
     if rng.random() < cfg["vac"]:
         a = day0 + rng.randint(0, 9) * 86400
@@ -236,6 +245,8 @@ def gen(rng, cfg):
             d["gap"] = g
         if rng.random() < cfg["onstart"]:
             d["onstart"] = True
+        elif rng.random() < 0.1:
+            d["onend"] = True            # the default kind, written out
         return d
     for p, n in leaves_t + conts:
         if rng.random() < (cfg["dep"] if "kids" not in n else cfg["contdep"]):
